@@ -31,6 +31,9 @@ import (
 //	share | advance <s> | txfail <k>            a share arrives | time | the node refuses the next k transactions
 //	closedevent                                 somebody else closes the contract (chain state + contractClosed log)
 //	cancel                                      the node shuts down
+//	repurchase len=<s>                          the same contract is purchased again in the same process: a new watcher and
+//	                                            controller (as the contract manager makes them), the process-wide GlobalHashrate
+//	                                            and the store stay; times in `tx` lines count from this purchase
 //
 // After every op: `ctl alive=<0|1> ret=<-|nil|ctx|err> watcher=<running|pending> werr=<kind> chain=<0|1>` and one
 // `tx <method> reason=<n> at=<s> ok=<0|1>` line per transaction sent since the previous observation.
@@ -49,6 +52,27 @@ type buyerWorld struct {
 	txSeen  int
 	target  int64
 	stopped bool
+	sto     int
+	cyc     int
+}
+
+func (w *buyerWorld) factory() *hashrate.Hashrate {
+	return hashrate.NewHashrate(map[string]hashrate.Counter{c10Counter: w.stub})
+}
+
+// launch: what the contract manager does for a purchase: a watcher and a controller of their own, run until they return
+func (w *buyerWorld) launch(length int) {
+	me := lib.MustPrivKeyStringToAddr(sellerKey)
+	enc := hr.NewTerms(w.addr.Hex(), "0x5e", me.Hex(), time.Now(), time.Duration(length)*time.Second, float64(w.target), big.NewInt(1), 0,
+		hr.BlockchainStateRunning, false, big.NewInt(0), false, 0, "", "", "0x0")
+	terms := &hr.Terms{BaseTerms: *enc.Copy()}
+	watcher := NewContractWatcherBuyer(terms, w.factory, nil, w.gh, vh.NopLog(), time.Duration(w.cyc)*time.Second, time.Duration(w.sto)*time.Second,
+		0.05, c10Counter, 2*time.Minute, time.Now().Add(-time.Second), resources.ContractRoleBuyer, nil)
+	w.ctl = NewControllerBuyer(watcher, w.store, sellerKey, false)
+	ctx, cancel := context.WithCancel(context.Background())
+	w.cancel = cancel
+	ret := w.ret
+	go func() { ret <- w.ctl.Run(ctx) }()
 }
 
 func (w *buyerWorld) observe(tr *vh.Transcript) {
@@ -126,7 +150,7 @@ func buyerCtlExec(tr *vh.Transcript, ops []string) {
 			fmt.Sscan(m["len"], &length)
 			fmt.Sscan(m["sto"], &sto)
 			fmt.Sscan(m["cycle"], &cyc)
-			w = &buyerWorld{ret: make(chan error, 1), retVal: "-", start: time.Now(), target: 1 << 14}
+			w = &buyerWorld{ret: make(chan error, 1), retVal: "-", start: time.Now(), target: 1 << 14, sto: sto, cyc: cyc}
 			w.addr = common.HexToAddress("0x00000000000000000000000000000000000000c1")
 			w.chain = vh.NewFakeChain(common.HexToAddress("0x00000000000000000000000000000000000000cf"))
 			me := lib.MustPrivKeyStringToAddr(sellerKey)
@@ -139,23 +163,26 @@ func buyerCtlExec(tr *vh.Transcript, ops []string) {
 					go w.chain.Emit(t.To, "contractClosed", me)
 				}
 			}
-			log := vh.NopLog()
-			w.store = contracts.NewHashrateEthereum(w.chain.CF, w.chain, log)
-			id := w.addr.Hex()
-			enc := hr.NewTerms(id, "0x5e", me.Hex(), time.Now(), time.Duration(length)*time.Second, float64(w.target), big.NewInt(1), 0,
-				hr.BlockchainStateRunning, false, big.NewInt(0), false, 0, "", "", "0x0")
-			terms := &hr.Terms{BaseTerms: *enc.Copy()}
+			w.store = contracts.NewHashrateEthereum(w.chain.CF, w.chain, vh.NopLog())
 			w.stub = &stubCounter{v: ghsToPerSecond(w.target)}
-			factory := func() *hashrate.Hashrate {
-				return hashrate.NewHashrate(map[string]hashrate.Counter{c10Counter: w.stub})
+			w.gh = hashrate.NewGlobalHashrate(w.factory)
+			w.launch(length)
+		case "repurchase":
+			var length int
+			fmt.Sscan(m["len"], &length)
+			if !w.stopped {
+				// the previous purchase's controller is still around: the manager stops it first
+				w.cancel()
+				synctest.Wait()
+				select {
+				case <-w.ret:
+				default:
+				}
 			}
-			w.gh = hashrate.NewGlobalHashrate(factory)
-			watcher := NewContractWatcherBuyer(terms, factory, nil, w.gh, log, time.Duration(cyc)*time.Second, time.Duration(sto)*time.Second,
-				0.05, c10Counter, 2*time.Minute, time.Now().Add(-time.Second), resources.ContractRoleBuyer, nil)
-			w.ctl = NewControllerBuyer(watcher, w.store, sellerKey, false)
-			ctx, cancel := context.WithCancel(context.Background())
-			w.cancel = cancel
-			go func() { w.ret <- w.ctl.Run(ctx) }()
+			ct := w.chain.Get(w.addr)
+			ct.State, ct.StartsAt, ct.Length = 1, time.Now().Unix(), int64(length)
+			w.ret, w.retVal, w.start, w.stopped = make(chan error, 1), "-", time.Now(), false
+			w.launch(length)
 		case "rate":
 			var g int64
 			fmt.Sscan(f[1], &g)
@@ -234,7 +261,30 @@ func buyerCtlGen(r *vh.Rng) []string {
 		}
 	}
 	if r.Bool(15) {
-		ops = append(ops, "cancel")
+		return append(ops, "cancel")
+	}
+	if r.Bool(40) {
+		// the contract is bought again in the same process; a share of the purchase that ended may still arrive after its
+		// watcher has gone, and the new purchase may begin long after that
+		if r.Bool(70) {
+			ops = append(ops, "share")
+		}
+		ops = append(ops, fmt.Sprintf("advance %d", vh.Pick(r, []int{5, sto + 30, 3 * sto, 1000})))
+		ops = append(ops, "txfail 0", fmt.Sprintf("repurchase len=%d", length))
+		quiet := cyc + 3
+		if quiet >= sto {
+			quiet = sto - 7
+		}
+		ops = append(ops, fmt.Sprintf("advance %d", quiet))
+		for e := quiet; e < 200+r.Intn(200); {
+			step := 10 + r.Intn(30)
+			ops = append(ops, "share", fmt.Sprintf("advance %d", step))
+			e += step
+		}
+		if r.Bool(50) {
+			ops = append(ops, fmt.Sprintf("advance %d", sto+cyc+20)) // and the shares stop
+			ops = append(ops, "advance 60")
+		}
 	}
 	return ops
 }
